@@ -97,6 +97,13 @@ class _BaseFrameField2DVertices(FrameField):
         for A in self.feat.feature_vertices:
             if abs(self.var[A])>1e-8:
                 self.var[A] /= abs(self.var[A])
+            else:
+                # contributions of the adjacent feature edges cancel out (for instance a straight crease and an odd order):
+                # follow one of the feature edges so that the constraint is still a unit frame
+                for B in self.mesh.connectivity.vertex_to_vertices(A):
+                    if self.mesh.connectivity.edge_id(A,B) in self.feat.feature_edges:
+                        self.var[A] = cmath.rect(1., self.order*self.conn.transport(A,B))
+                        break
 
     def _compute_attach_weight(self, A, fail_value=1e-3):
         # A is area weight matrix
